@@ -105,6 +105,17 @@ class TDVPAlgorithm(TTNTimeEvolution):
             self.state.move_orthogonalization_center(self.update_path[0],
                                                      mode=SplitMode.KEEP)
 
+    def reset_to_initial_state(self):
+        """
+        Resets the current state to the initial state.
+
+        The orthogonality center and the cache of partial tree contractions
+        are derived from the current state and have to be rebuilt with it.
+        """
+        super().reset_to_initial_state()
+        self._orthogonalize_init()
+        self.partial_tree_cache = self._init_partial_tree_cache()
+
     def _find_tdvp_orthogonalization_path(self,
                                           update_path: List[str]) -> List[List[str]]:
         """
